@@ -463,6 +463,25 @@ def token_codec(ctx, rr):
     fm = [n.value for n in ast.walk(bt.node) if isinstance(n, ast.Constant) and isinstance(n.value, str) and '%' in n.value]
     sp = [ast.unparse(c.args[0]) for c in P.own(pt, ast.Call) if isinstance(c.func, ast.Attribute) and c.func.attr == 'split' and c.args]
     ok = fm == ['%i#%s'] and sp == ["'#'"] and P.funcs[(H, 'int_to_base64')] in P.calls[bt] and P.funcs[(H, 'base64_to_int')] in P.calls[pt]
+    prt = [x.value for x in P.own(pt, ast.Return) if x.value is not None]
+    okp = len(prt) == 1 and isinstance(prt[0], ast.Tuple) and len(prt[0].elts) == 2 and isinstance(prt[0].elts[0], ast.Call) and isinstance(prt[0].elts[0].func, ast.Name) \
+        and prt[0].elts[0].func.id == 'int' and len(prt[0].elts[0].args) == 1 and isinstance(prt[0].elts[1], ast.Call) and \
+        any(t.name == 'base64_to_int' for t in P.targets(prt[0].elts[1]))
+    rr.ob(ctx.where(pt), 'the parser reads the prefix index in decimal (as written by %i) and the path in base 64', ok=okp)
+    if not okp:
+        rr.fail(ctx.finding('R-TOKEN-CODEC', pt, pt.node, 'parse_pagination_token does not decode (decimal prefix index, base-64 path): indexes above 9 resume in the wrong prefix',
+                            stmt='token parse'))
+    val = [n_ for n_ in ast.walk(pt.node) if isinstance(n_, ast.Constant) and isinstance(n_.value, str) and ('[' in n_.value or '^' in n_.value)]
+    for v in val:
+        import re as _re
+        try:
+            rx = _re.compile(v.value)
+            okv = all(rx.match('12#' + ch) for ch in b64) if isinstance(b64, str) else False
+        except Exception:
+            okv = False
+        rr.ob(ctx.where(pt, v), 'the token validation pattern accepts every digit of the path alphabet', ok=okv)
+        if not okv:
+            rr.fail(ctx.finding('R-TOKEN-CODEC', pt, v, 'the token validation pattern `%s` rejects tokens the builder can issue (a digit of the base-64 alphabet is missing)' % v.value))
     rr.ob(ctx.where(bt), 'token = "<prefix index>#<base64 path>" on both sides', ok=ok)
     if not ok:
         rr.fail(ctx.finding('R-TOKEN-CODEC', bt, bt.node, 'token text format differs between builder (%s) and parser (split %s)' % (fm, sp), stmt='token format'))
@@ -596,6 +615,23 @@ def filter_agree(ctx, rr):
                   'source webentity differs' if inbound else '(include_outbound and other webentity) or (include_internal and same webentity)', len(rows)), ok=not bad, rows=len(rows))
             for r, e, msg in bad:
                 rr.fail(ctx.finding('R-FILTER-AGREE', u, e.node if e is not None else lp, '%s: %s' % (qual, msg), detail={'row': r.show()[:500]}))
+    # ---- both directions are walked when both are requested (no elif between the outbound and the inbound block)
+    for qual in ('Traph.get_webentity_pagelinks_iter', 'Traph.get_page_links'):
+        u = P.unit(qual)
+        lps = _link_loops(P, u)
+        if len(lps) != 2:
+            continue
+        blocks = []
+        for lp in lps:
+            cur = lp
+            while cur is not None and not isinstance(cur, ast.If):
+                cur = P.parent.get(id(cur))
+            blocks.append(cur)
+        okb = blocks[0] is not None and blocks[1] is not None and blocks[0] is not blocks[1] and blocks[1] not in ast.walk(blocks[0]) and blocks[0] not in ast.walk(blocks[1])
+        rr.ob(ctx.where(u, lps[1]), '%s: the outbound and the inbound link walks are independent blocks' % qual, ok=okb)
+        if not okb:
+            rr.fail(ctx.finding('R-FILTER-AGREE', u, lps[1], '%s: the inbound walk is an else/elif branch of the outbound one: a page that has outlinks never gets its inlinks '
+                                'reported when both are requested' % qual))
     # ---- page level
     u = P.method('Traph', 'get_page_links')
     LRU = u.call_params[0]
@@ -678,6 +714,16 @@ def filter_agree(ctx, rr):
               % (qual, len(rows)), ok=not bad, rows=len(rows))
         for r, e, msg in bad:
             rr.fail(ctx.finding('R-FILTER-AGREE', u, e.node if e is not None else lp, '%s: %s' % (qual, msg), detail={'row': r.show()[:500]}))
+    # a link target may be unknown to the page map (no webentity, or indexed after the first pass): lookups must tolerate it
+    for qual in ('Traph.get_webentities_links_iter', 'Traph.get_webentities_links_slow_iter'):
+        u = P.unit(qual)
+        maps = {a.targets[0].value.id for a in ast.walk(u.node) if isinstance(a, ast.Assign) and isinstance(a.targets[0], ast.Subscript)
+                and isinstance(a.targets[0].value, ast.Name) and ast.unparse(a.targets[0].slice).endswith('.block')}
+        for x in ast.walk(u.node):
+            if isinstance(x, ast.Subscript) and isinstance(x.ctx, ast.Load) and isinstance(x.value, ast.Name) and x.value.id in maps:
+                rr.ob(ctx.where(u, x), 'page map lookups tolerate unknown targets', ok=False)
+                rr.fail(ctx.finding('R-FILTER-AGREE', u, x, '%s looks a link target up with `%s`: a target without webentity (or indexed after the first pass of an '
+                                    'interleaved query) raises KeyError instead of being skipped' % (qual, ast.unparse(x))))
     # pages are tallied and sources selected identically: is_page and a source webentity
     for qual in ('Traph.get_webentities_links_iter', 'Traph.get_webentities_links_slow_iter'):
         u = P.unit(qual)
